@@ -416,4 +416,5 @@ def safety_net(chk):
         hit = scalar_api_replay(chk, op, n, f, op)
         if hit:
             return hit
-    return None
+    from sym import ptreplay
+    return ptreplay.battery_value_history(chk.seed, "scalar")
